@@ -15,14 +15,14 @@ verus! {
 //@include contracts/metablock_specs.rs
 //@include contracts/stage_specs.rs
 // ---- C06 ----
-//@extract src/verifylib.rs fn:verify_layout_expiration props=C06
+//@extract src/verifylib.rs fn:verify_layout_expiration props=C06,C08
 //@contract ret=r
 //@include contracts/verify_layout_expiration.rs
 //@end
 
 
 // ---- C07 ----
-//@extract src/verifylib.rs fn:verify_threshold_constraints props=C07,C14
+//@extract src/verifylib.rs fn:verify_threshold_constraints props=C07,C08,C14
 //@uncontinue
 //@mapindex key_link_per_step
 //@contract ret=r
@@ -110,7 +110,7 @@ proof fn lemma_min_unique(s: Set<KeyId>, k: KeyId)   // [C13]
     assert(kid_le(m, k) && kid_le(k, m));
 }
 
-//@extract src/verifylib.rs fn:reduce_chain_links props=C13,C14
+//@extract src/verifylib.rs fn:reduce_chain_links props=C13,C08,C14
 //@subst D15 /link_files\.iter\(\)\.try_for_each\(\|\(k, v\)\| -> Result<\(\)> \{/ => for (k, v) in link_files.iter() {
 //@subst D15 /Ok\(\(\)\)\s*\}\)\?;/ => }
 //@subst D18 /v\.iter\(\)\s*\.min_by\(\|a, b\| a\.0\.cmp\(b\.0\)\)/ => min_by_key_id(v)
